@@ -89,9 +89,11 @@ func (sc *StateCache) commitRound(round int64, prevHash, blockHash string) {
 }
 
 func (sc *StateCache) commit(bc *BlockCache) {
+	verifYield("C0")
 	sc.lock.Lock()
 	defer sc.lock.Unlock()
 
+	verifYield("C1")
 	_, ok := sc.hashCache.Get(bc.blockHash)
 	if ok {
 		// block already committed
@@ -102,6 +104,7 @@ func (sc *StateCache) commit(bc *BlockCache) {
 	defer bc.mu.Unlock()
 	ts := time.Now()
 	for key, v := range bc.cache {
+		verifYield("C2")
 		bvsi, ok := sc.cache.Get(key)
 		if !ok {
 			var err error
@@ -116,11 +119,14 @@ func (sc *StateCache) commit(bc *BlockCache) {
 		if v.data != nil {
 			v.data = v.data.Clone()
 		}
+		verifYield("C3")
 		bvs.Add(bc.blockHash, v)
 
+		verifYield("C4")
 		sc.cache.Add(key, bvs)
 	}
 
+	verifYield("C5")
 	sc.commitRound(bc.round, bc.prevBlockHash, bc.blockHash)
 
 	sc.hits += bc.hits
@@ -142,6 +148,7 @@ func (sc *StateCache) Get(key, blockHash string) (Value, bool) {
 	// sc.mu.RLock()
 	// defer sc.mu.RUnlock()
 
+	verifYield("G1")
 	blockValues, ok := sc.cache.Get(key)
 	if !ok {
 		logging.Logger.Debug("state cache get - key not found", zap.String("key", key))
@@ -149,6 +156,7 @@ func (sc *StateCache) Get(key, blockHash string) (Value, bool) {
 	}
 
 	bvs := blockValues.(*lru.Cache)
+	verifYield("G2")
 	vv, ok := bvs.Get(blockHash)
 	if ok {
 		v := vv.(valueNode)
@@ -167,6 +175,7 @@ func (sc *StateCache) Get(key, blockHash string) (Value, bool) {
 	for {
 		count++
 		// get previous block hash
+		verifYield("G3")
 		prevHash, ok := sc.hashCache.Get(blockHash)
 		if !ok {
 			// could not find previous hash
@@ -175,6 +184,7 @@ func (sc *StateCache) Get(key, blockHash string) (Value, bool) {
 		}
 
 		blockHash = prevHash.(string)
+		verifYield("G4")
 		vv, ok = bvs.Get(blockHash)
 		if !ok {
 			// stop if the value is not found in previous maxHisDepth rounds
@@ -190,6 +200,7 @@ func (sc *StateCache) Get(key, blockHash string) (Value, bool) {
 
 		// // save into current block cache when it's 20 rounds behind
 		// if count >= 20 {
+		verifYield("G5")
 		bvs.Add(oldBlockHash, v)
 		// logging.Logger.Debug("state cache - migrate from previous block",
 		// 	zap.String("key", key),
